@@ -844,6 +844,25 @@ def allocation_state_belongs_to_a_record(ctx, p):
     ctx.ob(p + 'b allocation-mutators', 'anchor', '-', 'the functions that advance the fill mark / free-list head were found', n >= 3, 'found %d' % n)
 
 
+def deferral_keeps_commit_order(ctx, p):
+    """the x-part of deferral_is_surgical, for the properties that promise commit order of plain writes (C01, C05)"""
+    F = ctx.F
+    pc = ctx.body('db::DbInner::process_commits')
+    if not pc:
+        return
+    for s2 in pc.call_sites('db::DbInner::defer_commit'):
+        whole = False
+        for a in pc.term(s2)['a'][1:]:
+            if op_place(a) is None:
+                continue
+            sl = backward_slice(pc, [op_place(a)])
+            if '.Commit.changeset' in sl.fields and not any(F.body(c) is not None for c in sl.calls):
+                whole = True
+        ctx.ob(p + 'x deferral-requeues-only-the-dereference', 'K4-provenance', pc.path,
+               'what a deferral puts back at the end of the queue is not the whole commit: its key-value / btree / other-column operations keep their place in commit order (they are logged under the original id, or the commit is split)',
+               not whole, 'defer_commit is handed commit.changeset as it is: every operation of the transaction moves behind the commits made after it', pc.loc(s2))
+
+
 def deferral_is_surgical(ctx, p):
     """C11, second sentence: postponing a removal does not change the outcome of any other write."""
     F = ctx.F
